@@ -25,6 +25,8 @@ HYPERBAND_SMALL = ("suite_hyperband", {"n": {"quick": 40, "thorough": 800}})
 
 SYNC = ("suite_sync", {"n": {"quick": 200, "thorough": 4000}})
 
+PROGRAMS = ("suite_programs", {"n": {"quick": 400, "thorough": 8000}})
+
 NOT_CLAIMED = {}
 
 CORE_NOTE = ("Trusted: Lean kernel; the hand-written generic oracle model (Ktm/Core.lean: create/update/endT over an arbitrary "
@@ -187,4 +189,15 @@ PROPS = {
                           "threading, THREADS, LOCKS, LOCKS_GUARD): every executed schedule is replayed on the model and all intermediate states "
                           "compared. Independence of different oracles is checked by a scripted scenario, not proved (the model has one oracle).",
             "assumptions": ["granularity of preemption = the wrapper's shared operations"]},
+    "C13": {"suites": [PROGRAMS],
+            "level_text": "Theorems (Ktm/Props/C13.lean): the lookup rules stated outright (known+active => assigned value, known+inactive => None, "
+                          "unknown => registered, pre-populated value or default), reading by name (value / inactive error / unknown error, distinct), "
+                          "a conditional scope needs its parent, EVERY build program keeps parents before children and restores the scope stacks, "
+                          "and the three outcomes of update_space under allow_new_entries / tune_new_entries.",
+            "level_note": "partial: completeness of the discovery loop (every declaration under nested, eager or lazy, conditional scopes is found "
+                          "before the first trial) is not proved; the loop is modelled (Space.populateInitial; the unseeded values that "
+                          "ensure_active_values invents are inputs) and compared with real BaseTuner constructions on every generated program, and a "
+                          "monitor checks completeness and parent-first order on the implementation. Values are integer codes assigned by the harness "
+                          "(type-aware); Choice retypes bool choices to ints, so bool choices are not generated (recorded in DESIGN.md).",
+            "assumptions": ["build functions are the generated program family (declarations, name scopes, conditional scopes, reads)"]},
 }
